@@ -138,6 +138,14 @@ func runConc(w concWorld, dir string, prefix []int) (eff []int, enabledAt [][]in
 		case actAcquireW:
 			return S.writer == -1 && S.readers == 0
 		case actAcquireR:
+			// sync.RWMutex prefers writers: once a goroutine has CALLED Lock (its pending action), new RLock calls
+			// wait for it - so a reader that takes the read lock a second time while a writer is queued never
+			// gets it (and the writer never gets the lock: the reader still holds it)
+			for j := 0; j < n; j++ {
+				if j != i && !finished[j] && pending[j].kind == actAcquireW {
+					return false
+				}
+			}
 			return S.writer == -1
 		}
 		return true
@@ -180,6 +188,12 @@ func runConc(w concWorld, dir string, prefix []int) (eff []int, enabledAt [][]in
 		step++
 	}
 	S.active = false
+	for i := 0; i < n; i++ {
+		if !finished[i] {
+			// nobody is enabled and this worker has not finished: the schedule ends in a deadlock
+			ts[i].events = append(ts[i].events, "D")
+		}
+	}
 	b, _ := os.ReadFile(path)
 	// parse the final file: entries in order as slot:val ('?' when a body is not v<n>)
 	var ents []string
